@@ -291,6 +291,10 @@ class Exec(SpecMixin, ExprMixin, CallMixin, BuiltinMixin, StmtMixin, EventMixin)
       for other in allc:
         f = subcls(cls_const(cname), cls_const(other))
         st.assume(f if other in sups else z3.Not(f))
+    for cname in allc:
+      if cname in declared and getattr(self.world.classes[cname], 'final', False):
+        cv = z3.Const(fresh_name('fc'), Cls)
+        st.assume(z3.ForAll([cv], z3.Implies(subcls(cv, cls_const(cname)), cv == cls_const(cname))))
     st.assume(typeof(NONE) == cls_const('NoneType'))
     st.assume(z3.Not(truthy_u(NONE)))
 
